@@ -211,6 +211,12 @@ func validateMXIDMappingSignatures(ctx context.Context, e PDU, mapping MXIDMappi
 
 func extractAuthorisedViaServerName(content []byte) (spec.ServerName, error) {
 	if v := gjson.GetBytes(content, "join_authorised_via_users_server"); v.Exists() {
+		if v.Type == gjson.Null || (v.Type == gjson.String && v.Str == "") {
+			// No user is named, so there is no server of theirs to ask a
+			// signature of. The auth rules and HandleSendJoin, which decode the
+			// member into a string, read null and "" the same way.
+			return "", nil
+		}
 		_, serverName, err := SplitID('@', v.String())
 		if err != nil {
 			return "", fmt.Errorf("failed to split authorised server: %w", err)
